@@ -57,59 +57,70 @@ def run(ctx):
     # ------------------------------------------------------------------ C08-arity-per-application
     ctx.rule("C08-arity-per-application", "the argument count is checked against the parameter list of the procedure "
                                           "that is about to be applied, for every source of that procedure")
-    arity_ok = arity_rule(ctx, fb, ap, asp, bpa)
+    from . import evaltables
+    n0 = len(ctx.reports)
+    d_ar = evaltables.rule_application(ctx, "C08-arity-per-application", {"arity"})
+    d_tr = evaltables.rule_trampoline(ctx, "C08-arity-per-application", {"arity"})
+    if d_ar >= 12 and d_tr >= 3:
+        arity_ok = len(ctx.reports) == n0
+    else:
+        with ctx.fallback():
+            arity_ok = arity_rule(ctx, fb, ap, asp, bpa)
     ctx.extra_cov["arity_rule_holds"] = arity_ok
 
     # ------------------------------------------------------------------ C08-non-procedure
     ctx.rule("C08-non-procedure", "a non-procedure operator is Err(TypeMisMatch(_, Procedure)) on both call paths")
     ee = fb.find("interpreter::interpreter::Interpreter::eval_expression")
     vidx = dict((n, i) for i, n in fb.variants("parser::parser::ExpressionBody"))
-    sw = next(iter(mir.discriminant_switches(ee, "ExpressionBody")), None)
-    if not sw:
-        raise mir.AnchorMissing("eval_expression does not dispatch on ExpressionBody")
-    sb, place, adt, targets, other = sw
-    call_arm = mir.dominated_region(ee, targets[vidx["ProcedureCall"]])
-    vsw = [x for x in mir.discriminant_switches(ee, "values::Value") if x[0] in call_arm]
-    pidx = fb.variant_index("values::Value", "Procedure")
-    if not vsw:
-        ctx.report("C08-non-procedure", "eval_expression/shape", "the operator value is not matched in the call arm "
-                   "(shape not recognised)", where_of(ee))
-    else:
-        vb, vplace, _, vt, vo = vsw[0]
-        proc_t = vt.get(pidx)
-        non_t = vo if proc_t != vo else None
-        if proc_t is None or non_t is None:
-            ctx.report("C08-non-procedure", "eval_expression/arms", "no separate arm for non-procedure operators", where_of(ee))
+    d_np = evaltables.rule_call_errors(ctx, "C08-non-procedure") + evaltables.rule_epc(ctx, "C08-non-procedure")
+    def _old_nonproc():
+        sw = next(iter(mir.discriminant_switches(ee, "ExpressionBody")), None)
+        if not sw:
+            raise mir.AnchorMissing("eval_expression does not dispatch on ExpressionBody")
+        sb, place, adt, targets, other = sw
+        call_arm = mir.dominated_region(ee, targets[vidx["ProcedureCall"]])
+        vsw = [x for x in mir.discriminant_switches(ee, "values::Value") if x[0] in call_arm]
+        pidx = fb.variant_index("values::Value", "Procedure")
+        if not vsw:
+            ctx.report("C08-non-procedure", "eval_expression/shape", "the operator value is not matched in the call arm "
+                       "(shape not recognised)", where_of(ee))
         else:
-            reg = mir.dominated_region(ee, non_t)
-            aggs = [(v, s) for _, _, s, _, v in mir.aggregates(ee, reg)]
-            has_tm = any(v == "TypeMisMatch" for v, _ in aggs)
-            ty_proc = any(v == "Procedure" and "Type" in a for _, _, _, a, v in mir.aggregates(ee, reg))
-            applies = [callee(t) for _, t in ee.calls(reg) if callee(t) in (ap.name, asp.name, bpa.name)]
-            oks = [1 for _, _, s, _, v in mir.aggregates(ee, reg) if v == "Ok"]
-            ctx.inst("C08-non-procedure", "eval_expression/non-procedure-arm", {"TypeMisMatch": has_tm, "Type::Procedure": ty_proc})
-            if not (has_tm and ty_proc) or applies or oks:
-                ctx.report("C08-non-procedure", "eval_expression/non-procedure-arm", "calling a non-procedure does not end "
-                           "in Err(TypeMisMatch(_, Procedure)) only (applies=%s, builds Ok=%s)" % (applies, bool(oks)), where_of(ee))
-            # the located error must be returned: region reaches return without assigning the value local
-    epc = fb.find("interpreter::interpreter::Interpreter::eval_procedure_call")
-    exp = [(b, t) for b, t in epc.calls() if callee_matches(t, "values::Value::expect_procedure")]
-    if len(exp) != 1:
-        ctx.report("C08-non-procedure", "eval_procedure_call/expect", "eval_procedure_call does not test the operator with "
-                   "expect_procedure", where_of(epc))
-    else:
-        pp = Prov(epc)
-        # its result must be `?`-propagated and the Ok payload is the returned procedure
-        br = [(b, t) for b, t in epc.calls() if callee_matches(t, "std::ops::Try::branch")
-              and ("call", exp[0][0], callee(exp[0][1])) in pp.op_roots(t["args"][0])]
-        ctx.inst("C08-non-procedure", "eval_procedure_call/expect_procedure", {"propagated": bool(br)})
-        if not br:
-            ctx.report("C08-non-procedure", "eval_procedure_call/propagate", "the failure of expect_procedure is not "
-                       "propagated", where_of(epc, exp[0][1]))
-        # operand of expect_procedure derives from evaluating the operator expression (param 1)
-        ev = [(b, t) for b, t in epc.calls() if callee(t) == ee.name and 1 in pp.arg_roots(t["args"][0])]
-        if not ev:
-            ctx.report("C08-non-procedure", "eval_procedure_call/operator", "operator expression is not evaluated", where_of(epc))
+            vb, vplace, _, vt, vo = vsw[0]
+            proc_t = vt.get(pidx)
+            non_t = vo if proc_t != vo else None
+            if proc_t is None or non_t is None:
+                ctx.report("C08-non-procedure", "eval_expression/arms", "no separate arm for non-procedure operators", where_of(ee))
+            else:
+                reg = mir.dominated_region(ee, non_t)
+                aggs = [(v, s) for _, _, s, _, v in mir.aggregates(ee, reg)]
+                has_tm = any(v == "TypeMisMatch" for v, _ in aggs)
+                ty_proc = any(v == "Procedure" and "Type" in a for _, _, _, a, v in mir.aggregates(ee, reg))
+                applies = [callee(t) for _, t in ee.calls(reg) if callee(t) in (ap.name, asp.name, bpa.name)]
+                oks = [1 for _, _, s, _, v in mir.aggregates(ee, reg) if v == "Ok"]
+                ctx.inst("C08-non-procedure", "eval_expression/non-procedure-arm", {"TypeMisMatch": has_tm, "Type::Procedure": ty_proc})
+                if not (has_tm and ty_proc) or applies or oks:
+                    ctx.report("C08-non-procedure", "eval_expression/non-procedure-arm", "calling a non-procedure does not end "
+                               "in Err(TypeMisMatch(_, Procedure)) only (applies=%s, builds Ok=%s)" % (applies, bool(oks)), where_of(ee))
+                # the located error must be returned: region reaches return without assigning the value local
+        epc = fb.find("interpreter::interpreter::Interpreter::eval_procedure_call")
+        exp = [(b, t) for b, t in epc.calls() if callee_matches(t, "values::Value::expect_procedure")]
+        if len(exp) != 1:
+            ctx.report("C08-non-procedure", "eval_procedure_call/expect", "eval_procedure_call does not test the operator with "
+                       "expect_procedure", where_of(epc))
+        else:
+            pp = Prov(epc)
+            # its result must be `?`-propagated and the Ok payload is the returned procedure
+            br = [(b, t) for b, t in epc.calls() if callee_matches(t, "std::ops::Try::branch")
+                  and ("call", exp[0][0], callee(exp[0][1])) in pp.op_roots(t["args"][0])]
+            ctx.inst("C08-non-procedure", "eval_procedure_call/expect_procedure", {"propagated": bool(br)})
+            if not br:
+                ctx.report("C08-non-procedure", "eval_procedure_call/propagate", "the failure of expect_procedure is not "
+                           "propagated", where_of(epc, exp[0][1]))
+            # operand of expect_procedure derives from evaluating the operator expression (param 1)
+            ev = [(b, t) for b, t in epc.calls() if callee(t) == ee.name and 1 in pp.arg_roots(t["args"][0])]
+            if not ev:
+                ctx.report("C08-non-procedure", "eval_procedure_call/operator", "operator expression is not evaluated", where_of(epc))
+    ctx.guarded('C08-non-procedure', d_np >= 4, _old_nonproc)
 
     # ------------------------------------------------------------------ C08-expect-tables
     ctx.rule("C08-expect-tables", "Value::expect_X is Ok exactly on variant X and Err(TypeMisMatch) otherwise")
@@ -154,43 +165,48 @@ def run(ctx):
 
     # ------------------------------------------------------------------ C08-unbound
     ctx.rule("C08-unbound", "reading or assigning an unbound variable is Err(UnboundedSymbol); set! never defines")
-    sym_arm = mir.dominated_region(ee, targets[vidx["Symbol"]])
-    gets = [(b, t) for b, t in ee.calls(sym_arm) if callee_matches(t, "environment::LexicalScope::get")]
-    if len(gets) != 1:
-        ctx.report("C08-unbound", "eval_expression/lookup", "expected one environment lookup in the Symbol arm", where_of(ee))
-    else:
-        gsw = mir.result_switch_after(ee, gets[0][0])
-        if not gsw:
-            ctx.report("C08-unbound", "eval_expression/lookup-match", "lookup result is not matched", where_of(ee, gets[0][1]))
+    d_ub = evaltables.rule_symbol(ctx, "C08-unbound") + evaltables.rule_assignment(ctx, "C08-unbound")
+    def _old_unbound():
+        sb, place, adt, targets, other = next(iter(mir.discriminant_switches(ee, "ExpressionBody")))
+        sym_arm = mir.dominated_region(ee, targets[vidx["Symbol"]])
+        gets = [(b, t) for b, t in ee.calls(sym_arm) if callee_matches(t, "environment::LexicalScope::get")]
+        if len(gets) != 1:
+            ctx.report("C08-unbound", "eval_expression/lookup", "expected one environment lookup in the Symbol arm", where_of(ee))
         else:
-            none_t = gsw[1].get(0, gsw[2])
-            reg = mir.dominated_region(ee, none_t)
-            ub = any(v == "UnboundedSymbol" for _, _, _, _, v in mir.aggregates(ee, reg))
-            err = any(v == "Err" for _, _, _, _, v in mir.aggregates(ee, reg))
-            okv = [v for _, _, s, a, v in mir.aggregates(ee, reg) if a.endswith("values::Value") or v == "Ok"]
-            ctx.inst("C08-unbound", "eval_expression/none-edge", {"UnboundedSymbol": ub, "Err": err, "invented": okv})
-            if not (ub and err) or okv:
-                ctx.report("C08-unbound", "eval_expression/none-edge", "an unbound variable does not end in "
-                           "Err(UnboundedSymbol) (invented value: %s)" % okv, where_of(ee, gets[0][1]))
-            # env of lookup = param env; name = the symbol payload
+            gsw = mir.result_switch_after(ee, gets[0][0])
+            if not gsw:
+                ctx.report("C08-unbound", "eval_expression/lookup-match", "lookup result is not matched", where_of(ee, gets[0][1]))
+            else:
+                none_t = gsw[1].get(0, gsw[2])
+                reg = mir.dominated_region(ee, none_t)
+                ub = any(v == "UnboundedSymbol" for _, _, _, _, v in mir.aggregates(ee, reg))
+                err = any(v == "Err" for _, _, _, _, v in mir.aggregates(ee, reg))
+                okv = [v for _, _, s, a, v in mir.aggregates(ee, reg) if a.endswith("values::Value") or v == "Ok"]
+                ctx.inst("C08-unbound", "eval_expression/none-edge", {"UnboundedSymbol": ub, "Err": err, "invented": okv})
+                if not (ub and err) or okv:
+                    ctx.report("C08-unbound", "eval_expression/none-edge", "an unbound variable does not end in "
+                               "Err(UnboundedSymbol) (invented value: %s)" % okv, where_of(ee, gets[0][1]))
+                # env of lookup = param env; name = the symbol payload
+                pe = Prov(ee)
+                if 2 not in pe.arg_roots(gets[0][1]["args"][0]):
+                    ctx.report("C08-unbound", "eval_expression/env", "lookup is not performed in the current environment", where_of(ee))
+        # assignment arm: env.set(name, value)? propagated
+        asg_arm = mir.dominated_region(ee, targets[vidx["Assignment"]])
+        sets = [(b, t) for b, t in ee.calls(asg_arm) if callee_matches(t, "environment::LexicalScope::set")]
+        defs_in_asg = [(b, t) for b, t in ee.calls(asg_arm) if callee_matches(t, "environment::LexicalScope::define")]
+        ctx.inst("C08-unbound", "eval_expression/assignment", {"set": len(sets), "define": len(defs_in_asg)})
+        if len(sets) != 1 or defs_in_asg:
+            ctx.report("C08-unbound", "eval_expression/assignment", "set! must call LexicalScope::set exactly once and never "
+                       "define (found %d/%d)" % (len(sets), len(defs_in_asg)), where_of(ee))
+        else:
             pe = Prov(ee)
-            if 2 not in pe.arg_roots(gets[0][1]["args"][0]):
-                ctx.report("C08-unbound", "eval_expression/env", "lookup is not performed in the current environment", where_of(ee))
-    # assignment arm: env.set(name, value)? propagated
-    asg_arm = mir.dominated_region(ee, targets[vidx["Assignment"]])
-    sets = [(b, t) for b, t in ee.calls(asg_arm) if callee_matches(t, "environment::LexicalScope::set")]
-    defs_in_asg = [(b, t) for b, t in ee.calls(asg_arm) if callee_matches(t, "environment::LexicalScope::define")]
-    ctx.inst("C08-unbound", "eval_expression/assignment", {"set": len(sets), "define": len(defs_in_asg)})
-    if len(sets) != 1 or defs_in_asg:
-        ctx.report("C08-unbound", "eval_expression/assignment", "set! must call LexicalScope::set exactly once and never "
-                   "define (found %d/%d)" % (len(sets), len(defs_in_asg)), where_of(ee))
-    else:
-        pe = Prov(ee)
-        br = [(b, t) for b, t in ee.calls(asg_arm) if callee_matches(t, "std::ops::Try::branch")
-              and ("call", sets[0][0], callee(sets[0][1])) in pe.op_roots(t["args"][0])]
-        if not br:
-            ctx.report("C08-unbound", "eval_expression/assignment-error", "the result of LexicalScope::set is not "
-                       "propagated", where_of(ee, sets[0][1]))
+            br = [(b, t) for b, t in ee.calls(asg_arm) if callee_matches(t, "std::ops::Try::branch")
+                  and ("call", sets[0][0], callee(sets[0][1])) in pe.op_roots(t["args"][0])]
+            if not br:
+                ctx.report("C08-unbound", "eval_expression/assignment-error", "the result of LexicalScope::set is not "
+                           "propagated", where_of(ee, sets[0][1]))
+    ctx.guarded('C08-unbound', d_ub >= 4, _old_unbound)
+
     scope_set_rule(ctx, fb)
 
     # ------------------------------------------------------------------ C08-vector
@@ -209,30 +225,32 @@ def run(ctx):
                     if any(e["k"] == "index" for e in pl["proj"]) and "values::Value" in f.local_ty(pl["local"]):
                         ctx.report("C08-vector", "%s/index-projection" % f.name, "%s indexes value storage with `[]`" % f.name,
                                    where_of(f, span=s["span"]))
-    for name in ("vector_ref", "vector_set"):
-        f = fb.find("interpreter::library::native::base::" + name)
-        g = [(b, t) for b, t in f.calls() if callee_matches(t, "<impl [T]>::get", "<impl [T]>::get_mut", "Vec::get", "Vec::get_mut")]
-        if len(g) != 1:
-            ctx.report("C08-vector", name + "/access", "element access shape not recognised (%d checked accesses)" % len(g), where_of(f))
-            continue
-        gsw = mir.result_switch_after(f, g[0][0])
-        none_t = gsw[1].get(0, gsw[2]) if gsw else None
-        reg = mir.dominated_region(f, none_t) if none_t is not None else set()
-        oob = any(v == "VectorIndexOutOfBounds" for _, _, _, _, v in mir.aggregates(f, reg))
-        okv = any(v == "Ok" for _, _, _, _, v in mir.aggregates(f, reg))
-        ctx.inst("C08-vector", name + "/miss-edge", {"VectorIndexOutOfBounds": oob, "builds_ok": okv})
-        if not oob or okv:
-            ctx.report("C08-vector", name + "/miss-edge", "an out-of-range index does not end in "
-                       "Err(VectorIndexOutOfBounds)", where_of(f, g[0][1]))
-        # index operand must be the expect_integer result cast to usize, not clamped / wrapped
-        pf = Prov(f)
-        idx = g[0][1]["args"][1]
-        reach = pf.reach_locals(mir.op_local(idx)) if mir.op_local(idx) is not None else set()
-        arith = [s for _, _, s in f.stmts() if s["k"] == "assign" and s["place"]["local"] in reach and s["rv"]["k"] == "binop"]
-        calls_between = [callee(t) for _, t in f.calls() if t["dest"]["local"] in reach and not pf.is_pass(t)]
-        if arith or any(c and not c.endswith("expect_integer") for c in calls_between):
-            ctx.report("C08-vector", name + "/index-arith", "the index is transformed before the bounds test (%s)" % (
-                [s["rv"]["op"] for s in arith] + [c for c in calls_between if c and not c.endswith("expect_integer")]), where_of(f))
+    d_vec = evaltables.rule_vector(ctx, "C08-vector")
+    for name in (("vector_ref", "vector_set") if d_vec < 16 else ()):
+      with ctx.fallback():
+          f = fb.find("interpreter::library::native::base::" + name)
+          g = [(b, t) for b, t in f.calls() if callee_matches(t, "<impl [T]>::get", "<impl [T]>::get_mut", "Vec::get", "Vec::get_mut")]
+          if len(g) != 1:
+              ctx.report("C08-vector", name + "/access", "element access shape not recognised (%d checked accesses)" % len(g), where_of(f))
+              continue
+          gsw = mir.result_switch_after(f, g[0][0])
+          none_t = gsw[1].get(0, gsw[2]) if gsw else None
+          reg = mir.dominated_region(f, none_t) if none_t is not None else set()
+          oob = any(v == "VectorIndexOutOfBounds" for _, _, _, _, v in mir.aggregates(f, reg))
+          okv = any(v == "Ok" for _, _, _, _, v in mir.aggregates(f, reg))
+          ctx.inst("C08-vector", name + "/miss-edge", {"VectorIndexOutOfBounds": oob, "builds_ok": okv})
+          if not oob or okv:
+              ctx.report("C08-vector", name + "/miss-edge", "an out-of-range index does not end in "
+                         "Err(VectorIndexOutOfBounds)", where_of(f, g[0][1]))
+          # index operand must be the expect_integer result cast to usize, not clamped / wrapped
+          pf = Prov(f)
+          idx = g[0][1]["args"][1]
+          reach = pf.reach_locals(mir.op_local(idx)) if mir.op_local(idx) is not None else set()
+          arith = [s for _, _, s in f.stmts() if s["k"] == "assign" and s["place"]["local"] in reach and s["rv"]["k"] == "binop"]
+          calls_between = [callee(t) for _, t in f.calls() if t["dest"]["local"] in reach and not pf.is_pass(t)]
+          if arith or any(c and not c.endswith("expect_integer") for c in calls_between):
+              ctx.report("C08-vector", name + "/index-arith", "the index is transformed before the bounds test (%s)" % (
+                  [s["rv"]["op"] for s in arith] + [c for c in calls_between if c and not c.endswith("expect_integer")]), where_of(f))
     div_zero_rule(ctx, fb)
 
     # ------------------------------------------------------------------ C08-no-swallow
